@@ -535,16 +535,27 @@ func (r *Resolver) ResolveRecursive(ctx context.Context, req *Request, edge *aut
 	}
 
 	ctx, cancel := context.WithCancel(ctx)
-	defer cancel()
 
 	out := make(chan ResponseMsg, 2)
 
+	// Both branches are waited for (after cancelling them) before returning, as ResolveUnionEdges does:
+	// a branch that outlives the request would still be reading through the request's datastore wrappers
+	// while the server is shutting down.
+	var wg sync.WaitGroup
+	defer func() {
+		cancel()
+		wg.Wait()
+	}()
+
+	wg.Add(2)
 	go func() {
+		defer wg.Done()
 		res, err := r.ResolveUnionEdges(ctx, req, nonRecursiveEdges, visited)
 		concurrency.TrySendThroughChannel(ctx, ResponseMsg{Res: res, Err: err}, out)
 	}()
 
 	go func() {
+		defer wg.Done()
 		cacheKey := EdgeCacheKey(req, edge)
 
 		if res, ok := r.isCached(req.GetConsistency(), cacheKey); ok {
